@@ -144,6 +144,16 @@ class JSON:
         """Apply this filter to _left_ and return the result."""
         indent = int_arg(indent) if indent else None
         try:
-            return json.dumps(left, default=self.default, indent=indent)
+            return json.dumps(left, default=self._default, indent=indent)
         except (TypeError, ValueError, OverflowError) as err:
             raise LiquidTypeError(str(err), token=None) from err
+
+    def _default(self, obj: object) -> object:
+        # An undefined variable is nil, and a drop can stand for a primitive value.
+        if hasattr(obj, "__liquid__"):
+            return obj.__liquid__()
+        if self.default is not None:
+            return self.default(obj)
+        raise TypeError(
+            f"Object of type {obj.__class__.__name__} is not JSON serializable"
+        )
